@@ -20,6 +20,7 @@ EXPL = ("Formula conformance by tolerant normal-form comparison (floats to 1e-9 
         "under floating point are not decided.")
 FILES = ["blooms/bloom.py", "blooms/countingbloom.py", "countminsketch/countminsketch.py", "cuckoo/cuckoo.py"]
 LN2 = math.log(2.0)
+LN2_SQUARED_DOC = 0.4804530139182  # the divisor of the reference implementation (a truncation of ln(2)**2, not ln(2)**2 itself)
 
 
 def fl(x):
@@ -162,7 +163,7 @@ def check(prog, rep, tier):
     rep.analysed(g, ctx, len(ps))
     n, p_ = ("p", "estimated_elements"), ("p", "false_positive_rate")
     t = fl(("unp", "f", 0, ("pack", "f", (fl(p_),))))
-    bits = mcall("ceil", ("bin", "/", ("bin", "*", ("un", "-", n), mcall("log", t)), C(LN2 * LN2)))
+    bits = mcall("ceil", ("bin", "/", ("bin", "*", ("un", "-", n), mcall("log", t)), C(0.4804530139182)))
     hashes = ("call", ("g", "int"), (("call", ("g", "round"), (("bin", "/", ("bin", "*", C(LN2), bits), n),), ()),), ())
     normal = [p for p in ps if p.exit[0] == "return"]
     if not normal or any(q.exit[1][0] != "tup" or len(q.exit[1][1]) != 3 for q in normal):
